@@ -112,7 +112,7 @@ func init() {
 		Level: "proof",
 		Funcs: []string{"tcell.(*tScreen).scanInput", "tcell.(*tScreen).inputLoop", "tcell.(*baseScreen).PostEvent", "tcell.(*baseScreen).PostEventWait", "tcell.(*baseScreen).PollEvent",
 			"tcell.(*baseScreen).ChannelEvents", "tcell.NewEventFocus", "tcell.NewEventKey", "tcell.NewEventMouse", "tcell.(*simscreen).postEvent"},
-		Custom: []func(*PropRun){c05Replays},
+		Custom: []func(*PropRun){c05Replays, c02Replays},
 		Trusted: []string{"Go channels are FIFO and deliver each value to exactly one receiver; the schedule-quantified conclusion (exactly once, global order) follows from the per-function contracts by the standard argument for single-consumer FIFO queues, which is assumed",
 			"screenImpl.EventQ/StopQ return the implementation's channels (assumed interface contract)", "time.Now() is an arbitrary time value (ghost clock not modelled)"},
 		Assume: []string{"ErrEventQFull is non-nil (package variable initialised by errors.New, never written)",
